@@ -254,7 +254,8 @@ class NumSysLinTanh(NumSysLin):
 
         ymax = self.eqsys.upper_conc_bounds(
             params[: self.eqsys.ns],
-            min_=lambda a, b: sympy.Piecewise((a, a < b), (b, True)),
+            min_=lambda x: sympy.Min(*x),
+            dtype=object,
         )
         ytanh = [yimax * (4 + 5 * sympy.tanh(yi)) / 8 for yimax, yi in zip(ymax, yvec)]
         return NumSysLin.f(self, ytanh, params)
